@@ -52,6 +52,7 @@ def build_case(u):
     c["salt_len"] = u.choice([0, 1, 4, 7, 9, 12, 16, 32])
     c["random"] = u.take(u.below(64)) if mode == "random" else b""
     c["nfirst"] = u.below(3)  # how many valid replies precede the hostile one (walks / pooled state)
+    c["flagsel"] = u.below(12)  # v3: msgFlags override (None-like for >= 8: flags consistent with the body)
     return c
 
 
@@ -61,6 +62,13 @@ def describe(c):
     d["_cfg"] = gen.cfg_to_json(c["cfg"])
     d["base"] = list(c["base"])
     return d
+
+
+def v3_flags(c):
+    """msgFlags override for the structured v3 modes: any combination of auth / priv / reportable, independent of whether
+    msgData is really encrypted (the receive path must cope with inconsistent flags)."""
+    k = c.get("flagsel", 99)
+    return k if k < 8 else None
 
 
 def hostile_reply(c, req):
@@ -89,12 +97,14 @@ def hostile_reply(c, req):
         p = rb.pdu(rb.PDU_RESPONSE, req["request_id"], 0, 0, vbs)
         sc = rb.scoped_pdu(req["engine_id"], b"", p)
         sc2, notes = mutate.mutate_bytes(mu, sc)
-        return ag.build_reply(cfg, req, vbs, raw_scoped=sc2), ["scoped:" + x for x in notes]
+        return ag.build_reply(cfg, req, vbs, raw_scoped=sc2, flags=v3_flags(c)), ["scoped:" + x for x in notes] + ["flags=%s" % v3_flags(c)]
     if mode == "salt":
         if cfg.version != "v3":
             m = ag.build_reply(cfg, req, vbs)
             return mutate.mutate_bytes(mu, m)
-        return ag.build_reply(cfg, req, vbs, priv_params=b"\xa5" * c["salt_len"], encrypt=True if cfg.priv else None), ["salt%d" % c["salt_len"]]
+        # also for sessions without privacy: an OCTET STRING msgData reaches the decrypt call whatever the flags say
+        return (ag.build_reply(cfg, req, vbs, priv_params=b"\xa5" * c["salt_len"], encrypt=True if cfg.priv else None, flags=v3_flags(c)),
+                ["salt%d" % c["salt_len"], "flags=%s" % v3_flags(c)])
     raise ValueError(mode)
 
 
